@@ -116,6 +116,13 @@ CASES = [
     ("diag-sccs-wrong-column", ["C12"], "diagnostics.py", "eigv_vij[:, int(abs(index_vij))]", "eigv_vij[:, i]", M),
     ("diag-sccs-unsigned", ["C12"], "diagnostics.py", "eigv_dij[:, i] + index_vij * eigv_vij", "eigv_dij[:, i] + eigv_vij", M),
     ("stats-resample-unsorted-volumes", ["C15"], "stats.py", "        out_fractions[i, ...] = frac_ascending[count_less]", "        out_fractions[i, ...] = frac[count_less]", M),
+    ("minerals-gbs-skipped-at-zero-mobility", ["C09"], "minerals.py", "            deformation_gradient, orientations, fractions = _utils.extract_vars(\n                solver.y, self.n_grains\n            )",
+     "            if params[\"gbm_mobility\"] == 0:\n                return\n            deformation_gradient, orientations, fractions = _utils.extract_vars(\n                solver.y, self.n_grains\n            )", M),
+    ("minerals-regime-read-once", ["C07"], "minerals.py", "            if get_regime is not None:\n                self.regime = get_regime(t, position)\n", "            if get_regime is not None and t == time_start:\n                self.regime = get_regime(t, position)\n", M),
+    ("minerals-position-clipped", ["C06"], "minerals.py", "            position = get_position(t)", "            position = get_position(np.clip(t, time_start, time_end))", M),
+    ("minerals-postfix-stringified", ["C17"], "minerals.py", "            if postfix is not None:\n                _log.info(\"saving Mineral to file %s (postfix: %s)\", filename, postfix)", "            if postfix is not None:\n                postfix = _io.stringify(postfix)\n                _log.info(\"saving Mineral to file %s (postfix: %s)\", filename, postfix)", M),
+    ("minerals-voigt-skip-zero-mispaired", ["C10"], "minerals.py", "            for n in range(n_grains):\n                average_tensors[i] += _tensors.elastic_tensor_to_voigt(\n                    _tensors.rotate(\n                        phase_tensors[mineral.phase],\n                        mineral.orientations[i][n, ...].transpose(),\n                    )\n                    * mineral.fractions[i][n]",
+     "            fractions = mineral.fractions[i]\n            orientations = mineral.orientations[i][fractions > 0]\n            for n in range(len(orientations)):\n                average_tensors[i] += _tensors.elastic_tensor_to_voigt(\n                    _tensors.rotate(\n                        phase_tensors[mineral.phase],\n                        orientations[n, ...].transpose(),\n                    )\n                    * fractions[n]", M),
     # ---------------- benign refactors (must stay silent)
     ("benign-rename-locals", ["C02", "C03"], "core.py", "    invariants = np.zeros(4)\n    for i in range(3):\n        for j in range(3):\n            # (010)[100]\n            invariants[0] +=",
      "    invariants = np.zeros(4)\n    for i in range(3):\n        for j in range(3):\n            # slip system (010)[100]\n            invariants[0] +=", B),
@@ -148,6 +155,9 @@ CASES = [
     ("benign-corner-factor", ["C18"], "velocity.py", "    prefactor = 4 * plate_speed / (np.pi * (h**2 + v**2) ** 2)", "    r2 = h**2 + v**2\n    prefactor = 4 * plate_speed / (np.pi * r2 * r2)", B),
     ("benign-config-local", ["C19"], "io.py", "    n_provided = len(_params[\"disl_coefficients\"])", "    coeffs = _params[\"disl_coefficients\"]\n    n_provided = len(coeffs)", B),
     ("benign-gbs-where", ["C09", "C01"], "utils.py", "    fractions[mask] = gbs_threshold / n_grains\n", "    fractions[:] = np.where(mask, gbs_threshold / n_grains, fractions)\n", B),
+    ("benign-voigt-skip-zero", ["C10"], "minerals.py", "            for n in range(n_grains):\n                average_tensors[i] += _tensors.elastic_tensor_to_voigt(\n                    _tensors.rotate(\n                        phase_tensors[mineral.phase],\n                        mineral.orientations[i][n, ...].transpose(),\n                    )\n                    * mineral.fractions[i][n]",
+     "            keep = mineral.fractions[i] > 0\n            fractions = mineral.fractions[i][keep]\n            orientations = mineral.orientations[i][keep]\n            for n in range(len(orientations)):\n                average_tensors[i] += _tensors.elastic_tensor_to_voigt(\n                    _tensors.rotate(\n                        phase_tensors[mineral.phase],\n                        orientations[n, ...].transpose(),\n                    )\n                    * fractions[n]", B),
+    ("benign-rhs-local-scale", ["C05", "C04"], "minerals.py", "            strain_rate_max = np.abs(la.eigvalsh(strain_rate)).max()", "            eigenvalues = la.eigvalsh(strain_rate)\n            strain_rate_max = np.abs(eigenvalues).max()", B),
     ("benign-reader-comprehension", ["C16"], "io.py", "                tuple(\n                    map(\n                        ft.partial(\n                            _parse_scsv_cell, f, missingstr=missingstr, fillval=fill\n                        ),\n                        x,\n                    )\n                )\n",
      "                tuple(\n                    _parse_scsv_cell(f, cell, missingstr=missingstr, fillval=fill)\n                    for cell in x\n                )\n", B),
     ("benign-writer-missing-local", ["C16"], "io.py", "            writer.writerow(names)\n", "            writer.writerow(names)\n            missing = schema[\"missing\"]\n", B),
